@@ -39,7 +39,7 @@ CHARGES = ["up", "down", "strange", "charm", "bottom", "top"]
 def cases(draw, tier="quick"):
     fam = draw(st.sampled_from(["a", "a", "b", "c", "c", "d", "d"]))
     # structure functions and (one case in four) the cross sections built on them: both are linear in the kernels
-    common = dict(kinds=cards.SFS * 3 + configs.XS_KINDS, max_pto=3, sv=True, tmcs=(0, 0, 0, 0, 0, 1), targets=("proton", "ZA"), grid_kw={"nmax": 9},
+    common = dict(kinds=cards.SFS * 3 + configs.XS_KINDS, max_pto=3, sv=True, tmcs=(0, 0, 0, 0, 1, 2, 3), targets=("proton", "ZA"), grid_kw={"nmax": 9},
                   x_classes=["interior", "node", "near_node", "large"])
     if fam == "a":
         cfg = draw(configs.config(schemes=("FFNS", "FFN0"), heavynesses=("total",), **common))
@@ -58,6 +58,7 @@ def cases(draw, tier="quick"):
         # N3LO is otherwise rare (it excludes scale variations, TMC and the polarised kinds): one case in five is lifted to it
         th["PTO"] = meta["pto"] = 3
         th["RenScaleVar"] = th["FactScaleVar"] = False
+    configs.split_orders(draw, th, meta)
     cfg["family"] = fam
     return cfg
 
